@@ -166,7 +166,7 @@ def adjust_key_parity_contract(variant='call'):
                     raises={'ValueError': ('iff', 'not spec.modes.tdes_key_ok(key_in)')},
                     ensures={'value': 'result == spec.modes.des_parity(key_in)', 'len': 'len(result) == len(key_in)',
                              'len_ok': 'len(result) == 16 or len(result) == 24', 'bytes': 'isinstance(result, bytes)'},
-                    result='bytes', modifies=[], bv_width=8, opaque=KEY_OPAQUE if variant == 'call' else [])
+                    result='bytes', modifies=[], options={'bit_arith': True}, opaque=KEY_OPAQUE if variant == 'call' else [])
 
 
 def parity_lemma_contract():
@@ -175,7 +175,7 @@ def parity_lemma_contract():
                     lemmas={'exit': {'arith': 'result == spec.modes.odd_parity(b)'}},    # the declarative (arithmetic) definition, proved first
                     ensures={'key_bits': 'result // 2 == b // 2 and 0 <= result and result <= 255',      # FIPS 46-3: bits 7..1 are the key material
                              'odd': '(%s) %% 2 == 1' % ones},                         # ... and the byte has an odd number of ones
-                    modifies=[], bv_width=8)
+                    modifies=[], options={'bit_arith': True})
 
 
 def base_cipher_contract(name, have_aesni=True, for_call=False):
@@ -219,6 +219,60 @@ def base_cipher_contract(name, have_aesni=True, for_call=False):
                     options={'dict_pops': {'dict_parameters': own}})
 
 
+# ------------------------------------------------------------------------------------------------ Cipher._create_cipher
+
+MODE_FACTORIES = ['ecb', 'cbc', 'cfb', 'ofb', 'ctr', 'openpgp', 'eax', 'ccm', 'siv', 'gcm', 'ocb', 'kw', 'kwp']
+CC = C + '_create_cipher'
+
+
+def made_model(which):
+    """abstract _create_<which>_cipher(factory, **kwargs): returns an object that records which constructor ran, for which
+    factory, with which keyword record (a snapshot)"""
+    def model(E, st, args, kwargs):
+        from vf.pyvc.values import HObj
+        snap = st.alloc(HObj('dict', items=dict(kwargs)))
+        ref = rawapi.new_native(st, 'native.Made', g_which=which, g_factory=getattr(args[0], 'name', None) if args else None, g_kwargs=snap, g_nargs=len(args))
+        return val(st, ref)
+    return model
+
+
+def create_cipher_contract(name, extra):
+    ex = 'True' if extra else 'False'
+    shapes = ['dict()', 'dict(nonce:bytes)', 'dict(IV:bytes)', 'dict(segment_size:int)']
+    if extra:
+        shapes = ['dict(add_aes_modes:const:True%s)' % (',' + x[5:-1] if x != 'dict()' else '') for x in shapes]
+    pos = 'spec.modes.positional_parameter(mode)'
+    sel = 'spec.modes.mode_factory(mode, %s)' % ex
+    K = 'result.g_kwargs'
+    toomany = '(len(args) > 1 and %s is not None) or (len(args) > 0 and (mode == 1 or mode == 6))' % pos
+    return Contract(CC, params={'factory': 'module:Crypto.Cipher.' + name, 'key': 'bytes', 'mode': 'int', 'args': 'tuple()|tuple(bytes)|tuple(bytes,bytes)',
+                                'kwargs': '|'.join(shapes)},
+                    raises={'TypeError': ('iff', toomany), 'ValueError': ('iff', 'not (%s) and %s is None' % (toomany, sel))},
+                    ensures={'dispatch': 'result.g_which == %s' % sel,
+                             'factory': "result.g_factory == 'Crypto.Cipher.%s' and result.g_nargs == 1" % name,       # the same factory module, alone
+                             'key': "%s['key'] == key" % K,
+                             'positional': "(len(args) == 1 and %s is not None) ==> %s[%s] == args[0]" % (pos, K, pos),
+                             'private': "'add_aes_modes' not in %s" % K,
+                             # nothing else is added or lost: every caller keyword is passed on unchanged
+                             'passed_on': "all([k in %s for k in old(kwargs.keys()) if k != 'add_aes_modes']) and "
+                                          "len(%s) == old(len(kwargs)) - %d + 1 + (1 if (len(args) == 1 and %s is not None and %s not in old(kwargs.keys())) else 0)"
+                                          % (K, K, 1 if extra else 0, pos, pos),
+                             'values': "('segment_size' in %s ==> %s['segment_size'] == old(kwargs['segment_size'])) and "
+                                       "((len(args) == 0 and 'nonce' in %s) ==> %s['nonce'] == old(kwargs['nonce'])) and "
+                                       "((len(args) == 0 and 'IV' in %s) ==> %s['IV'] == old(kwargs['IV']))" % (K, K, K, K, K, K)},
+                    modifies=['kwargs'])
+
+
+def create_cipher_registry(name='AES', extra=True):
+    reg = base_registry()
+    reg.add(ClassContract('native.Made', fields={'g_which': 'str', 'g_factory': 'any', 'g_kwargs': 'any', 'g_nargs': 'int'}, abstract=True))
+    mods = {'kw': '_mode_kw', 'kwp': '_mode_kwp'}
+    for w in MODE_FACTORIES:
+        reg.models[C + mods.get(w, '_mode_' + w) + '._create_%s_cipher' % w] = made_model(w)
+    reg.add(create_cipher_contract(name, extra))
+    return reg
+
+
 def registry(name='AES', have_aesni=True, akp=None):
     reg = base_registry()
     if akp == 'lemma':
@@ -242,10 +296,14 @@ def units(prop, tier):
     out = []
     if prop in ('C02', 'C16', 'C17'):
         for name in ALG:
-            if name == 'DES3':
-                continue
             if prop == 'C16' and name != 'AES':
                 continue
             out.append(pyvc_unit(prop, 'factory.%s.base' % name, lambda name=name: registry(name), [C + name + '._create_base_cipher']))
         out.append(pyvc_unit(prop, 'factory.AES.base_noaesni', lambda: registry('AES', False), [C + 'AES._create_base_cipher']))
+    if prop == 'C02':
+        out.append(pyvc_unit(prop, 'factory.create_cipher.AES', lambda: create_cipher_registry('AES', True), [CC], weight=2))
+        out.append(pyvc_unit(prop, 'factory.create_cipher.DES3', lambda: create_cipher_registry('DES3', False), [CC]))
+        out.append(pyvc_unit(prop, 'factory.DES3.adjust_key_parity', lambda: registry(akp='tdes'), [AKP], weight=4))
+        out.append(pyvc_unit(prop, 'factory.DES3.adjust_key_parity_badlen', lambda: registry(akp='badlen'), [AKP]))
+        out.append(pyvc_unit(prop, 'factory.DES3.parity_lemma', lambda: registry(akp='lemma'), ['spec.modes.lemma_parity']))
     return out
